@@ -6,6 +6,7 @@ require (
 	github.com/anishathalye/porcupine v1.3.0
 	github.com/golang/snappy v0.0.1
 	github.com/samaritan-proxy/samaritan v0.0.0
+	google.golang.org/grpc v1.23.1
 )
 
 require (
@@ -25,7 +26,6 @@ require (
 	golang.org/x/sys v0.0.0-20190907184412-d223b2b6db03 // indirect
 	golang.org/x/text v0.3.0 // indirect
 	google.golang.org/genproto v0.0.0-20180817151627-c66870c02cf8 // indirect
-	google.golang.org/grpc v1.23.1 // indirect
 	gopkg.in/yaml.v2 v2.2.2 // indirect
 )
 
